@@ -87,14 +87,17 @@ class Run:
     def closure(self, exprs):
         """All definitional facts reachable from the free constants of `exprs`."""
         seen_vars, out, stack = set(), [], list(exprs)
-        seen_ast = set()
+        seen_defs = set()
         while stack:
             e = stack.pop()
-            for v in free_consts(e, seen_ast):
+            for v in _fc(e):
                 if v in seen_vars:
                     continue
                 seen_vars.add(v)
                 for d in self.defs.get(v, ()):
+                    if d.get_id() in seen_defs:
+                        continue
+                    seen_defs.add(d.get_id())
                     out.append(d)
                     stack.append(d)
         return out
@@ -113,6 +116,7 @@ class Run:
     def feasible(self, cond):
         s = z3.Solver()
         s.set("timeout", self.FEAS_TIMEOUT_MS)
+        s.set("rlimit", 3000000)
         hyps = self.context(cond)
         s.add(*hyps)
         s.add(cond)
@@ -194,26 +198,54 @@ def _conjuncts(g):
 
 
 
+_FC_MEMO = {}
+_FC_KEEP = []
+
+
 def free_consts(e, seen=None):
-    """names of uninterpreted constants in z3 expr e (iterative; `seen` shares visited ast ids)"""
+    """names of uninterpreted constants in z3 expr e.  Memoised per AST node (terms are DAGs with
+    heavy sharing; walking them as trees is exponential).  `seen` (a set of names already reported
+    to the caller) only filters the output."""
+    names = _fc(e)
     if seen is None:
-        seen = set()
-    out = []
-    stack = [e]
-    while stack:
-        x = stack.pop()
-        i = x.get_id()
-        if i in seen:
-            continue
-        seen.add(i)
-        if z3.is_const(x):
-            if x.decl().kind() == z3.Z3_OP_UNINTERPRETED:
-                out.append(x.decl().name())
-        elif z3.is_quantifier(x):
-            stack.append(x.body())
-        else:
-            stack.extend(x.children())
+        return list(names)
+    out = [n for n in names if n not in seen]
     return out
+
+
+def _fc(e):
+    i = e.get_id()
+    hit = _FC_MEMO.get(i)
+    if hit is not None:
+        return hit
+    stack = [(e, False)]
+    while stack:
+        x, done = stack.pop()
+        xi = x.get_id()
+        if xi in _FC_MEMO:
+            continue
+        if z3.is_quantifier(x):
+            kids = [x.body()]
+        else:
+            kids = x.children()
+        if not done:
+            stack.append((x, True))
+            for k in kids:
+                if k.get_id() not in _FC_MEMO:
+                    stack.append((k, False))
+            continue
+        if z3.is_const(x) and not z3.is_quantifier(x):
+            res = frozenset([x.decl().name()]) if x.decl().kind() == z3.Z3_OP_UNINTERPRETED else frozenset()
+        else:
+            res = frozenset().union(*[_FC_MEMO[k.get_id()] for k in kids]) if kids else frozenset()
+        _FC_MEMO[xi] = res
+        _FC_KEEP.append(x)
+    return _FC_MEMO[i]
+
+
+def reset_caches():
+    _FC_MEMO.clear()
+    del _FC_KEEP[:]
 
 
 # --------------------------------------------------------------------------------------------
